@@ -387,8 +387,14 @@ func (ex *Exec) evalInstr(fr *Frame, st *State, ins ssa.Instruction, v ssa.Value
 		st.Closures[id.String()] = c
 		st.assume(Eq(UF("closure.fn", SInt, id), ex.funcID(fn)))
 		for i, b := range c.Bindings {
-			if len(b.L) == 1 && b.Loc == nil {
-				st.assume(Eq(UF(fmt.Sprintf("closure.bind%d", i), SInt, id), toInt(b.L[0])))
+			bv := b
+			if b.Loc != nil && b.Loc.Kind == "cell" {
+				if cv, ok := st.Cells[b.Loc.Cell]; ok {
+					bv = cv
+				}
+			}
+			if len(bv.L) == 1 && bv.Loc == nil {
+				st.assume(Eq(UF("closure.fv."+fn.FreeVars[i].Name(), SInt, id), toInt(bv.L[0])))
 			}
 		}
 		return Value{T: x.Type(), L: []*Term{id}, Clo: c}
